@@ -11,7 +11,8 @@ import time
 VERIF = os.path.dirname(os.path.dirname(os.path.abspath(__file__)))
 REPO = os.environ.get("KANATA_REPO", "/repo")
 DRIVER = os.path.join(VERIF, "kfacts", "target", "debug", "kfacts")
-CACHE = os.path.join(VERIF, ".cache", "facts")
+# scratch copies (self-test mutants, tools/mutrun) get their own cache so they never evict /repo's facts
+CACHE = os.path.join(VERIF, ".cache", "mutfacts" if os.environ.get("KANATA_REPO") else "facts")
 
 # configuration name -> cargo arguments
 CONFIGS = {
@@ -145,7 +146,7 @@ def generate(config="default", repo=REPO, outdir=None):
             pass
 
 
-def _prune_cache(keep, maxn=6):
+def _prune_cache(keep, maxn=4):
     try:
         ents = [os.path.join(CACHE, d) for d in os.listdir(CACHE)]
         ents = [e for e in ents if os.path.isdir(e) and e != keep]
